@@ -58,6 +58,10 @@ func replayMain(path string) int {
 		sys2 := core.Mount(simdisk.NewState(), f.Cfg)
 		so.Sys = sys2
 		so.AfterStep = nil
+		if f.Engine == "format" {
+			eo := &endOracle{model: core.NewModel(), n: len(f.Ops)}
+			so.AfterStep = eo.afterStep
+		}
 		vs = append(vs, core.RunSession(nil, f.Cfg, f.Ops, so).Viol...)
 		sys2.Unmount()
 		return show(vs)
@@ -77,6 +81,20 @@ func replayMain(path string) int {
 		res, rec := core.RunScenario(&sc, core.NewPrefixChooser(sched), false)
 		fmt.Println("  history:", core.HistoryString(rec))
 		return show(core.CheckExecution(&sc, res, rec))
+	case "vconc":
+		raw, _ := json.Marshal(f.Extra["scenario"])
+		var sc core.VConc
+		if err := json.Unmarshal(raw, &sc); err != nil {
+			fmt.Fprintln(os.Stderr, "bad scenario:", err)
+			return 2
+		}
+		var sched []int
+		raw, _ = json.Marshal(f.Extra["schedule"])
+		json.Unmarshal(raw, &sched)
+		fmt.Printf("  scenario %q schedule %v\n", sc.Name, sched)
+		_, o := core.RunVConc(core.NewPrefixChooser(sched), &sc)
+		fmt.Println("  outcome:", o.History)
+		return show(o.Viol)
 	case "fault":
 		raw, _ := json.Marshal(f.Extra["fault"])
 		var fp core.FaultPlan
@@ -132,7 +150,8 @@ func replayMain(path string) int {
 			if c, ok := f.Extra["checkpoints"].(float64); ok {
 				n = int(c)
 			}
-			_, br := core.RunBlockedReport(core.NewPrefixChooser(sched), n, open)
+			trunc, _ := f.Extra["truncate_last"].(bool)
+			_, br := core.RunBlockedReportT(core.NewPrefixChooser(sched), n, open, trunc)
 			fmt.Println("  outcome:", br.History)
 			return show(br.Viol)
 		}
@@ -164,6 +183,11 @@ func replayCrash(f *core.Finding, show func([]core.Violation) int) int {
 		fmt.Println("  legal:    ", f.Legal)
 	}
 	vs := sr.Viol
+	if f.Prop == "C09" && sr.OpenErr == nil && len(sr.Models) > 0 {
+		// the format-after-recovery clause: one more batch, clean Close, independent decoding of the files
+		vs = append(vs, formatLeafHook(nil)(st, f.Cfg, sr.Models[0])...)
+		return show(vs)
+	}
 	if sr.OpenObs != nil && f.Obs != "" && sr.OpenObs.Sig() == f.Obs && len(vs) == 0 {
 		// same recovery as recorded: the recorded verdict stands
 		vs = append(vs, core.Violation{Prop: f.Prop, Msg: f.Msg})
